@@ -39,6 +39,10 @@ Definition fs_get (fs : fsys) (name : str) : option fcontent := alookup str_eqb 
 (* open(name, 'w').write(t): an existing file is replaced in place, a new one appended *)
 Definition fs_write (fs : fsys) (name : str) (t : str) : fsys := aset str_eqb name (FText t) fs.
 
+(* the files written (FText), as (name, text) *)
+Definition fs_texts (fs : fsys) : list (str * str) :=
+  flat_map (fun p => match snd p with FText t => [(fst p, t)] | _ => [] end) fs.
+
 Definition E_IO : N := 20.      (* PybtexError("unable to open ...") *)
 Definition E_AUX : N := 21.     (* AuxDataError *)
 
@@ -398,3 +402,5 @@ Section Run.
     | _, _ => Crash
     end.
 End Run.
+
+Definition written_text (o : outcome) : list (str * str) := fs_texts (o_fs o).
